@@ -216,6 +216,10 @@ def units(tier):
             return r
         us.append(("C17.expr." + f, g))
     us.append(("C17.factor.string_builtin_preconditions", unit_string_builtin_preconditions))
+    from props import c17_control as CT
+    from props.common import wrap as _wrap
+    _wrap(us, "C17.cmdnext.continues_the_FOR_of_its_variable", CT.unit_cmdnext)
+    _wrap(us, "C17.clearvar.scalar_reset_to_zero_or_empty", CT.unit_clearvar)
     return us
 
 
